@@ -125,6 +125,10 @@ package report
 //@   requires keyfile: forall k key :: has(srcs, k) ==> s.Sources[srcs[k]].FileName == det("trimPath", 0, k.fileName, rpt.options.TrimPath, rpt.options.SourcePath)
 //@   ensures keyfile: forall k key :: has(srcs, k) ==> s.Sources[srcs[k]].FileName == det("trimPath", 0, k.fileName, rpt.options.TrimPath, rpt.options.SourcePath)
 //@   ensures result_file: line.Function != nil ==> s.Sources[result].FileName == det("trimPath", 0, line.Function.Filename, rpt.options.TrimPath, rpt.options.SourcePath)
+// (after seeded change unique-name-seen-lookup-by-bare-function-name) a new source whose full name was already taken gets the
+// suffixed unique name: the look-up that decides it is by the full name, the key the table is filled under
+//@   mustcall Sprint suffixed: true when len(s.Sources) == old(len(s.Sources)) + 1 && (forall n string :: n == s.Sources[$res0].FullName ==> old(has(seenFunctions, n) && seenFunctions[n]))
+//@   ensures first_keeps_name: len(s.Sources) == old(len(s.Sources)) + 1 ==> (forall n string :: n == s.Sources[result].FullName && !old(has(seenFunctions, n) && seenFunctions[n]) ==> s.Sources[result].UniqueName == n && seenFunctions[n])
 
 // makeInitialStacks: one stack per sample, rooted at source 0, every source index in range, all place lists empty and
 // non-nil (what fillPlaces requires), the stack carries the sample's selected value, and in every iteration exactly
